@@ -155,3 +155,44 @@ def wide_tie_word_products(rng, fixed_n=None):
                     out.append((x, a, y, b, a + b - p))
                     break
     return out
+
+
+def products_near_type_maxima(rng, fixed_n=None):
+    """(x, a, y, b, n): x @ a * y @ b whose coefficient product is Q * 10^p + r (p = a + b - n digits are cut off) with r
+    in {all nines, all nines - 1, 0, 1, half, half +- 1} and the product within a few thousand units below a
+    primitive-type maximum T (2^31, 2^32, 2^63, 2^64, 2^127, 2^128) or in the upper 40 % of the band below it: where a
+    narrow fast path for the division by 10^p runs out of range, and where reciprocal constants stop being exact."""
+    from ..oracle import M, P10
+    from .. import gen as G
+    out = []
+    for T in G.TYPE_MAXIMA:
+        for p in range(1, 19):
+            t = P10[p]
+            if t * 4 > T:
+                continue
+            for r in (t - 1, t - 2, 0, 1, t // 2, t // 2 + 1, t // 2 - 1):
+                for _try in range(6):
+                    y = rng.getrandbits(rng.randrange(3, 40)) | 1
+                    if y % 5 == 0:
+                        continue
+                    q0 = (-r * pow(t, -1, y)) % y
+                    qmax = (T - r) // t
+                    if rng.random() < 0.5:
+                        qmax -= rng.randrange(0, max(1, (4 * qmax) // 10))        # somewhere in the upper 40 % of the band
+                    if qmax < q0:
+                        continue
+                    q = qmax - ((qmax - q0) % y) - y * rng.randrange(0, 3)
+                    if q < 0:
+                        continue
+                    prod = q * t + r
+                    x = prod // y
+                    if prod % y or x > M or x == 0:
+                        continue
+                    ab = [(a, b) for a in range(19) for b in range(19)
+                          if 0 <= a + b - p <= 18 and (fixed_n is None or a + b - p == fixed_n)]
+                    if not ab:
+                        break
+                    a, b = rng.choice(ab)
+                    out.append((x, a, y, b, a + b - p))
+                    break
+    return out
